@@ -155,6 +155,22 @@ impl<R: Read> PgnRawParser<R> {
         Ok(result)
     }
 
+    /// Read up to (not including) the next space, line break or the end of the input
+    fn read_token(&mut self) -> String {
+        let mut result = String::new();
+
+        while self.ensure_buffer() {
+            let byte = self.current_buffer[self.current_byte];
+            if byte == b' ' || byte == b'\n' {
+                break;
+            }
+            result.push(byte as char);
+            self.increment_byte();
+        }
+
+        result
+    }
+
     fn read_tag_pairs(&mut self) -> Result<HashMap<String, String>, PgnRawParserError> {
         let mut result = HashMap::new();
 
@@ -198,29 +214,24 @@ impl<R: Read> PgnRawParser<R> {
             result.push(mv);
         }
 
-        self.skip_to_next_line()?;
-
-        Ok(result)
+        match self.skip_to_next_line() {
+            Ok(()) | Err(ReadingFromClosedRead) => Ok(result),
+            Err(error) => Err(error),
+        }
     }
 
     fn read_move(&mut self) -> Result<Option<PgnRawAnnotatedMove>, PgnRawParserError> {
         self.skip_blank_lines_and_spaces()?;
 
-        let token = self.read_until(b' ')?;
+        let token = self.read_token();
 
-        let mut chars = token.chars();
-        if chars.next() == Some('*') {
-            return Ok(None);
-        }
-
-        if let Some('-' | '/') = chars.next() {
-            self.skip_to_next_line()?;
+        if matches!(token.as_str(), "*" | "1-0" | "0-1" | "1/2-1/2") {
             return Ok(None);
         }
 
         let mv = if token.contains('.') {
             self.skip_spaces()?;
-            self.read_until(b' ')?
+            self.read_token()
         } else {
             token
         };
